@@ -1,6 +1,7 @@
 package c09
 
 import (
+	"go/token"
 	"go/types"
 	"sort"
 
@@ -88,17 +89,40 @@ func c09Path(c *props.Ctx, sp *ssa.Package) *c09path {
 	for fn := range p.fns {
 		p.order = append(p.order, fn)
 	}
-	sort.Slice(p.order, func(i, j int) bool { return p.order[i].Pos() < p.order[j].Pos() })
-	// the linear index function: the method of MarchingCanvas taking three ints and returning an int
-	// that the path calls to subscript block storage; resolved by name (anchor) and checked by signature.
-	p.index = methodOf(c, "MarchingCanvas", "index")
+	sort.Slice(p.order, func(i, j int) bool { return posLess(c.P.Fset, p.order[i].Pos(), p.order[j].Pos()) })
+	// the linear index function, by role: the in-package straight-line function (x, y, z int) int that the path
+	// calls; the name `index` is only the fallback when that is not unique
+	var cands []*ssa.Function
+	seen := map[*ssa.Function]bool{}
+	for _, fn := range p.order {
+		ssau.AllInstrs(fn, func(in ssa.Instruction) {
+			call, ok := in.(*ssa.Call)
+			if !ok {
+				return
+			}
+			cal := call.Common().StaticCallee()
+			if cal == nil || seen[cal] || cal.Pkg != sp || len(cal.Blocks) != 1 {
+				return
+			}
+			seen[cal] = true
+			sig := cal.Signature
+			if sig.Params().Len() == 3 && sig.Results().Len() == 1 && allInts(sig.Params()) && isInt(sig.Results().At(0).Type()) {
+				cands = append(cands, cal)
+			}
+		})
+	}
+	if len(cands) == 1 {
+		p.index = cands[0]
+	} else {
+		p.index = methodOf(c, "MarchingCanvas", "index")
+	}
 	if p.index == nil {
-		c.R.Failf("anchor method MarchingCanvas.index not found")
+		c.R.Failf("anchor: no unique straight-line (x, y, z int) int helper is called on the AddField/March path and MarchingCanvas.index does not exist")
 		return nil
 	}
 	sig := p.index.Signature
 	if sig.Params().Len() != 3 || sig.Results().Len() != 1 || !allInts(sig.Params()) {
-		c.R.Failf("anchor method MarchingCanvas.index no longer has the shape (x, y, z int) int")
+		c.R.Failf("anchor: the linear index function no longer has the shape (x, y, z int) int")
 		return nil
 	}
 	return p
@@ -111,4 +135,21 @@ func allInts(t *types.Tuple) bool {
 		}
 	}
 	return true
+}
+
+// posLess orders positions by (file name, offset): token.Pos values of different files depend on the
+// order in which the loader happened to parse them and are not stable between runs.
+func posLess(fset *token.FileSet, a, b token.Pos) bool {
+	pa, pb := fset.Position(a), fset.Position(b)
+	if pa.Filename != pb.Filename {
+		return pa.Filename < pb.Filename
+	}
+	return pa.Offset < pb.Offset
+}
+
+// sortedFuncs: FuncsOf in an order that does not depend on the loader's file parse order.
+func sortedFuncs(c *props.Ctx, sp *ssa.Package) []*ssa.Function {
+	fs := append([]*ssa.Function{}, c.P.FuncsOf(sp)...)
+	sort.SliceStable(fs, func(i, j int) bool { return posLess(c.P.Fset, fs[i].Pos(), fs[j].Pos()) })
+	return fs
 }
